@@ -206,6 +206,12 @@ fn validate_backup_member_name(name: &str) -> Result<()> {
         "invalid backup member path '{}': only single-file names are allowed",
         name
     );
+    // Path::components() drops trailing separators ("name/"), so check the characters themselves.
+    anyhow::ensure!(
+        !name.contains('/') && !name.contains('\\'),
+        "invalid backup member path '{}': path separators are not allowed",
+        name
+    );
 
     Ok(())
 }
